@@ -431,6 +431,22 @@ func runC20Chain(c *vt.Ctx, s c20ChainScenario) {
 	var err error
 	c20Quiet(func() { out, err = mergeConfigList(configs, f) })
 	c.Trace("mergeConfigList err=%v out=%s", err, out)
+	c20JudgeChain(c, s, out, err)
+}
+
+// c20Reporter is what the oracle needs from its driver: *vt.Ctx under rapid, a thin
+// adapter over *testing.T under the native fuzzer (zz_verif_c20_fuzz_test.go).
+type c20Reporter interface {
+	Fatalf(format string, args ...any)
+	Logf(format string, args ...any)
+	Label(l string)
+	Labelf(format string, args ...any)
+	NonTrivial()
+}
+
+// c20JudgeChain judges what mergeConfigList answered (out, err) for the plugin list and
+// kernel features of s against the clauses of the statement.
+func c20JudgeChain(c c20Reporter, s c20ChainScenario, out string, err error) {
 
 	// classification of the input
 	type inPlugin struct {
